@@ -14,8 +14,8 @@ from . import core
 # ---------------------------------------------------------------- configurations
 
 
-def add(total=1, sync=False, rm=False, nopop=False, after=0):
-    return {"op": "add", "total": total, "sync": sync, "rm": rm, "nopop": nopop, "after": after}
+def add(total=1, sync=False, rm=False, nopop=False, after=0, fail=0):
+    return {"op": "add", "total": total, "sync": sync, "rm": rm, "nopop": nopop, "after": after, "fail": fail}
 
 
 def incr(b, n=1):
@@ -24,6 +24,10 @@ def incr(b, n=1):
 
 def abort(b, drop=False):
     return {"op": "abort", "b": b, "drop": drop}
+
+
+def prio(b, v, lazy=False):
+    return {"op": "prio", "b": b, "n": v, "drop": lazy}
 
 
 def call(op):
@@ -45,6 +49,12 @@ CONFIGS = {
     "shut":   (2, 2, False, [[add(2), add(1), incr(2), call("shutdown")], [incr(1), call("wait")]], 3),
     "two":    (2, 2, False, [[add(1), add(1), call("wait")], [incr(1), incr(2), call("write")]], 3),
     "q0":     (1, 0, False, [[add(1), incr(1), call("wait")]], 3),
+    "prio":   (2, 2, False, [[add(2), add(2), prio(1, 5), incr(1, 2), incr(2, 2), call("wait")]], 3),
+    "priolazy": (2, 2, False, [[add(2), add(2), incr(1, 2), incr(2, 2), call("wait")], [prio(1, 5, True)]], 3),
+    "prio3":  (3, 3, False, [[add(1), add(1), add(1), incr(1), incr(2), incr(3), call("wait")], [prio(1, 7, True), prio(3, 0)]], 2),
+    "fault1": (2, 2, False, [[add(2, fail=2), add(1), incr(2), incr(1), call("wait")]], 3),           # a filler error, no synced decorators
+    "fault2": (2, 2, False, [[add(2), add(1, fail=1), incr(1), call("wait")], [call("write")]], 3),
+    "faultsync": (3, 3, False, [[add(2, True), add(2, True), add(2, fail=1), call("wait")]], 2),    # finding F5
     "three":  (3, 3, False, [[add(1, True), add(1, True), add(1), incr(1), incr(2), incr(3), call("wait")]], 2),
 }
 
@@ -62,16 +72,23 @@ def tla_op(o):
     return "[" + ", ".join("%s |-> %s" % (k, v(x)) for k, x in f.items()) + "]"
 
 
-def write_model(wd, name, extra_cfg="", spec="Spec", invariants="NoPanic NoHang NoDupInFrame TextAtMostOnce TextWritten Quiescent", sim=False):
+def write_model(wd, name, extra_cfg="", spec="Spec", invariants="NoPanic NoHang NoDupInFrame TextAtMostOnce TextWritten Quiescent ErrorReportedOnce NoRenderAfterError SortedFrames", sim=False):
     nb, q, pop, progs, ticks = CONFIGS[name]
     if sim:
         ticks = 12   # random walks waste ticks; the bound only has to keep a walk finite
     prog = "<< " + ", ".join("<< " + ", ".join(tla_op(o) for o in p) + " >>" for p in progs) + " >>"
+    fault, nadd_ = "[b |-> 1, at |-> 0]", 0
+    for p_ in progs:
+        for o in p_:
+            if o["op"] == "add":
+                nadd_ += 1
+                if o.get("fail"):
+                    fault = "[b |-> %d, at |-> %d]" % (nadd_, o["fail"])
     base = "MPBSim" if sim else "MPBCore"
     mod = "MCgen_%s" % name
     open(os.path.join(wd, mod + ".tla"), "w").write(
-        "---- MODULE %s ----\nEXTENDS %s\nP == %s\n====\n" % (mod, base, prog))
-    cfg = ("SPECIFICATION %s\nCONSTANTS\n  NB = %d\n  Q = %d\n  Pop = %s\n  Prog <- P\n  MaxTicks = %d\n%s"
+        "---- MODULE %s ----\nEXTENDS %s\nP == %s\nF == %s\n====\n" % (mod, base, prog, fault))
+    cfg = ("SPECIFICATION %s\nCONSTANTS\n  NB = %d\n  Q = %d\n  Pop = %s\n  Prog <- P\n  Fault <- F\n  MaxTicks = %d\n%s"
            "CHECK_DEADLOCK FALSE\n" % (spec, nb, q, "TRUE" if pop else "FALSE", ticks, extra_cfg))
     if invariants:
         cfg += "INVARIANTS " + invariants + "\n"
@@ -100,11 +117,15 @@ def scenario(name, sid, steps=None, mode="replay", seed=1, stats=True):
                     h["nopop"] = True
                 if o.get("after"):
                     h["after"] = "b%d" % o["after"]
+                if o.get("fail"):
+                    h["fault"] = {"kind": "fill", "at": o["fail"]}
                 ops.append(h)
             elif o["op"] == "incr":
                 ops.append({"op": "incr", "b": "b%d" % o["b"], "n": o["n"]})
             elif o["op"] == "abort":
                 ops.append({"op": "abort", "b": "b%d" % o["b"], "flag": o.get("drop", False)})
+            elif o["op"] == "prio":
+                ops.append({"op": "prio", "b": "b%d" % o["b"], "n": o["n"], "flag": o.get("drop", False)})
             elif o["op"] == "write":
                 ops.append({"op": "write", "line": "T|%d|%d" % (len(clients), len(ops))})
             else:
